@@ -450,7 +450,7 @@ func runC16(c *c16Case) (v verdict, sig string, err error) {
 		return v, "", nil
 	}
 	if missing > 0 {
-		return v, "missing", fmt.Errorf("%d of %d datagrams were not re-emitted towards %s:%d (payload lengths %v)", missing, len(c.Payloads), target, c.Port, lens(c.Payloads))
+		return v, "missing", fmt.Errorf("%d of %d datagrams were not re-emitted towards %s:%d (payload lengths of the first phase %v)", missing, len(payloads), target, c.Port, lens(c.Payloads))
 	}
 	if c.Toggle != "" && c.Proto == "ipfix" {
 		if sig, err := c16Toggle(c, d, target); err != nil {
